@@ -19,7 +19,15 @@ def report_of(o):
 
 
 def make_run_case(rng):
-    c = c10.make_term_case(rng)
+    while True:
+        c = c10.make_term_case(rng)
+        # graphs with self-loops and parallel edges (what grid_to_graph makes of periodic axes of length 1 and 2); the time step is
+        # tuned to the hops they add (an edge added to a graph without edges brings rates the first tuning never saw: Poisson means
+        # beyond `int`, finding F20, and far beyond what F20's discriminator divides away)
+        ne = len(c["desc"]["space"].get("edges", []))
+        trajgen.add_multi_edges(rng, c["desc"])
+        if len(c["desc"]["space"].get("edges", [])) == ne or abs(trajgen.tune_time_step(c)) <= 40:
+            break
     # empty tails of the request list, requests all at 0, a single request
     r = rng.random()
     if r < 0.15:
@@ -41,8 +49,6 @@ def make_run_case(rng):
     sp = c["desc"]["space"]
     if sp["type"] == "grid" and rng.random() < 0.5:
         sp["per"] = [True, True, True]
-    # graphs with self-loops and parallel edges (what grid_to_graph makes of periodic axes of length 1 and 2)
-    trajgen.add_multi_edges(rng, c["desc"])
     return c
 
 
